@@ -47,6 +47,8 @@ where
             return Err(DecodeError::IncompleteDataMessageHeader);
         }
 
+        let initial_length = reader.len();
+
         let maybe_length = if flags.has_length() {
             let length = unsafe { reader.read_u16_be_unchecked() };
             Some(length)
@@ -74,16 +76,22 @@ where
 
         let payload_length;
         if let Some(length) = maybe_length {
-            let minimal_length = minimal_length_minus_flags + 2;
-            if length as usize > reader.len() + minimal_length {
+            // The length field counts the whole message from the first flag octet,
+            // including any offset padding that was just skipped
+            const FLAGS_LENGTH: usize = 2;
+            let header_length = FLAGS_LENGTH + (initial_length - reader.len());
+            if (length as usize) < header_length {
+                return Err(DecodeError::IncompleteDataMessageHeader);
+            }
+            payload_length = length as usize - header_length;
+            if payload_length > reader.len() {
                 return Err(DecodeError::IncompleteDataMessagePayload);
             }
-            payload_length = length as usize;
         } else {
             payload_length = reader.len();
         }
 
-        if reader.is_empty() {
+        if payload_length == 0 {
             return Err(DecodeError::EmptyDataMessagePayload);
         }
 
